@@ -27,31 +27,63 @@ theorem is_full_eq (key : α → κ) (P : Nat) (m : ASet α) : is_full key P m =
   show decide (m.len = m.vals.length ∨ ¬ (m.len + 1 ≤ P)) = (m.len == m.vals.length || decide (m.len ≥ P))
   by_cases h1 : m.len = m.vals.length <;> by_cases h2 : m.len + 1 ≤ P <;> simp [h1, h2] <;> omega
 
-/-- The state `(early result, start, end)` of the binary-search loop after `n` iterations. -/
+/-- The state `(early result, start, end, left by its condition)` of the binary-search loop after `n` iterations
+    (`none` = a bounds check failed). -/
 def searchSt (key : α → κ) (vals : List α) (x : κ) :
-    Nat → Option (Option Nat × Option Nat) × Nat × Nat → Option (Option (Option Nat × Option Nat) × Nat × Nat)
+    Nat → Option (Option Nat × Option Nat) × Nat × Nat × Bool →
+      Option (Option (Option Nat × Option Nat) × Nat × Nat × Bool)
   | 0, s => some s
   | n + 1, s =>
     let st := s.2.1
-    let e := s.2.2
-    if ¬ st ≤ e then some (none, st, e)
+    let e := s.2.2.1
+    if ¬ st ≤ e then some (none, st, e, true)
     else
       let mid := st + (e - st) / 2
       match vals[mid]? with
       | none => none
       | some y =>
-        if x < key y ∧ e = st then some (none, st, e)
-        else if x < key y then searchSt key vals x n (none, st, mid - 1)
-        else if key y < x then searchSt key vals x n (none, mid + 1, e)
-        else some (some (some mid, none), st, e)
+        if x < key y ∧ e = st then some (none, st, e, true)
+        else if x < key y then searchSt key vals x n (none, st, mid - 1, s.2.2.2)
+        else if key y < x then searchSt key vals x n (none, mid + 1, e, s.2.2.2)
+        else some (some (some mid, none), st, e, s.2.2.2)
 
-theorem searchSt_spec (key : α → κ) (vals : List α) (x : κ) (n st e : Nat) (ps : List Nat) :
-    (searchSt key vals x n (none, st, e)).map (fun s => match s.1 with
+/-- The loop leaves by its own condition, a `break` or a `return` (or fails a bounds check) within the fuel: the
+    interval `[start, end]` shrinks in every iteration, so `end + 2 - start` iterations always suffice. -/
+theorem searchSt_exit (key : α → κ) (vals : List α) (x : κ) (n st e : Nat) (hn : e + 1 - st < n) :
+    ∀ r, searchSt key vals x n (none, st, e, false) = some r → r.1.isSome ∨ r.2.2.2 = true := by
+  induction n generalizing st e with
+  | zero => omega
+  | succ n ih =>
+    intro r hr
+    simp only [searchSt] at hr
+    by_cases hle : st ≤ e
+    · simp only [hle, not_true_eq_false, if_false] at hr
+      cases hv : vals[st + (e - st) / 2]? with
+      | none => rw [hv] at hr; cases hr
+      | some y =>
+        rw [hv] at hr
+        simp only [] at hr
+        by_cases h1 : x < key y
+        · by_cases h2 : e = st
+          · simp only [h1, h2, and_self, if_true, Option.some.injEq] at hr
+            subst hr; exact Or.inr rfl
+          · simp only [h1, h2, and_false, if_true, if_false] at hr
+            exact ih _ _ (by omega) r hr
+        · by_cases h3 : key y < x
+          · simp only [h1, h3, false_and, if_true, if_false] at hr
+            exact ih _ _ (by omega) r hr
+          · simp only [h1, h3, false_and, if_false, Option.some.injEq] at hr
+            subst hr; exact Or.inl rfl
+    · simp only [hle, not_false_eq_true, if_true, Option.some.injEq] at hr
+      subst hr; exact Or.inr rfl
+
+theorem searchSt_spec (key : α → κ) (vals : List α) (x : κ) (n st e : Nat) (ps : List Nat) (hn : e + 1 - st < n) :
+    (searchSt key vals x n (none, st, e, false)).map (fun s => match s.1 with
       | some r => r
       | none => (none, some s.2.1))
     = (ASet.search key vals x n st e ps).toOption.map (fun r => r.1.pair) := by
   induction n generalizing st e ps with
-  | zero => rfl
+  | zero => omega
   | succ n ih =>
     simp only [searchSt, ASet.search]
     by_cases hle : st ≤ e
@@ -64,13 +96,15 @@ theorem searchSt_spec (key : α → κ) (vals : List α) (x : κ) (n st e : Nat)
         · by_cases h2 : e = st
           · simp [h1, h2, Except.toOption, Idx.pair]
           · simp only [h1, h2, and_false, and_true, if_true, if_false]
-            exact ih _ _ _
+            exact ih _ _ _ (by omega)
         · by_cases h3 : key y < x
           · simp only [h1, h3, false_and, if_true, if_false]
-            exact ih _ _ _
+            exact ih _ _ _ (by omega)
           · simp [h1, h3, Except.toOption, Idx.pair]
     · simp [hle, Except.toOption, Idx.pair]
 
+/-- `index`: the translated binary search is the model's, *and it never runs out of fuel* (`len + 1` iterations
+    suffice for an interval of `len` positions) — unconditionally. -/
 theorem index_eq (key : α → κ) (P : Nat) (m : ASet α) (x : α) :
     index key P m x = (ASet.index key m (key x)).toOption.map Idx.pair := by
   unfold index ASet.index ASet.indexP
@@ -78,26 +112,35 @@ theorem index_eq (key : α → κ) (P : Nat) (m : ASet α) (x : α) :
   by_cases h0 : m.len = 0
   · simp [h0, Except.toOption, Except.map, Idx.pair]
   · simp only [h0, if_false]
+    have hfuel : (m.len - 1) + 1 - 0 < m.len + 1 := by omega
     rw [Fuel.forIn_eq_of_optF _ (searchSt key m.vals (key x)) (fun s => rfl)]
-    · have := searchSt_spec key m.vals (key x) (m.len + 1) 0 (m.len - 1) []
-      cases hs : searchSt key m.vals (key x) (m.len + 1) (none, 0, m.len - 1) with
+    · have hspec := searchSt_spec key m.vals (key x) (m.len + 1) 0 (m.len - 1) [] hfuel
+      have hexit := searchSt_exit key m.vals (key x) (m.len + 1) 0 (m.len - 1) hfuel
+      cases hs : searchSt key m.vals (key x) (m.len + 1) (none, 0, m.len - 1, false) with
       | none =>
-        rw [hs] at this
+        rw [hs] at hspec
         cases hr : ASet.search key m.vals (key x) (m.len + 1) 0 (m.len - 1) [] with
         | error e => simp [Except.toOption, Except.map]
-        | ok r => rw [hr] at this; simp [Except.toOption] at this
+        | ok r => rw [hr] at hspec; simp [Except.toOption] at hspec
       | some s =>
-        rw [hs] at this
+        rw [hs] at hspec
+        have hx := hexit s hs
         cases hr : ASet.search key m.vals (key x) (m.len + 1) 0 (m.len - 1) [] with
-        | error e => rw [hr] at this; simp [Except.toOption] at this
+        | error e => rw [hr] at hspec; simp [Except.toOption] at hspec
         | ok r =>
-          rw [hr] at this
-          simp only [Option.map_some, Except.toOption, Option.some.injEq] at this
+          rw [hr] at hspec
+          simp only [Option.map_some, Except.toOption, Option.some.injEq] at hspec
           simp only [Option.bind_eq_bind, Option.bind_some, Except.map, Except.toOption, Option.map_some]
-          rw [← this]
-          cases s.1 <;> rfl
+          rw [← hspec]
+          obtain ⟨r1, st, e, ex⟩ := s
+          cases r1 with
+          | some r1 => rfl
+          | none =>
+            have : ex = true := by simpa using hx
+            subst this
+            rfl
     · intro n s
-      obtain ⟨r, st, e⟩ := s
+      obtain ⟨r, st, e, ex⟩ := s
       simp only [searchSt]
       by_cases hle : st ≤ e
       · simp only [hle, not_true_eq_false, if_false]
